@@ -28,8 +28,11 @@ Definition stdv_of (sumsq recsq : float) (sumrec call : N) : float :=
   let variance := if variance <? 0 then 0 else variance in
   if 0 <? mean then sqrt variance * 100 / mean else 0.
 (* the code before the three fixes: squares and mean in uint64_t, sigma / sqrt(calls), no test of the mean *)
+(* (double)x for any uint64_t x: halve with a sticky bit above 2^63 (same rounding) *)
+Definition fl64 (n : N) : float :=
+  if (n <? 9223372036854775808)%N then fl n else fl (N.lor (N.div n 2) (N.modulo n 2)) * 2.
 Definition stdv_legacy (sumsq recsq avg call : N) : float :=
-  let variance := fl (N.div (add64 sumsq recsq) call) - fl ((avg * avg) mod M64)%N in
+  let variance := fl64 (N.div (add64 sumsq recsq) call) - fl64 ((avg * avg) mod M64)%N in
   sqrt (variance / fl call) * 100 / fl avg.
 
 (* (name, total stdv, self stdv) for every node of the report over the rows in counting order *)
